@@ -53,9 +53,31 @@ def _fixed_dir():
     return _FIXED['d']
 
 
+BAD_TEXTS = [
+    'INPUT(a)\nINPUT(b)\nOUTPUT(zz)\nOUTPUT(a)\nzz = MAJ(a, b, a)\n',           # unknown operator after the declarations
+    'INPUT(a)\nOUTPUT(q)\nq = NOT(a, a)\n',                                     # wrong operand count
+    'INPUT(a)\nOUTPUT(q)\nOUTPUT(r)\nq = AND(a, nowhere)\nr = OR(a, q)\n',      # operand that is never defined
+    'OUTPUT(x)\nINPUT(a)\nthis line is not bench\nx = NOT(a)\n',
+]
+
+
+def refused_parse_before(case, core):
+    """One case in five: the process first parses a text the parser has to refuse (whatever it answers is ignored).  The
+    parse that follows is an ordinary one: nothing of the refused text may reach it."""
+    k = len(case['nl']['gates']) + len(case['nl']['outputs'])
+    if k % 5:
+        return False
+    try:
+        core.Circuit.from_bench_string(BAD_TEXTS[k // 5 % len(BAD_TEXTS)])
+    except Exception:  # noqa
+        pass
+    return True
+
+
 def check_roundtrip(case):
     core = cirbo_core()
     nl = case['nl']
+    after_refusal = refused_parse_before(case, core)
     c = build.build(nl, case['route'])
     text = c.format_circuit()
     if case['via_file']:
@@ -92,6 +114,8 @@ def check_roundtrip(case):
         cls.add('via_file_same_path' if case.get('same_path') else 'via_file')
     if sum(1 for g in nl['gates'] if g[1] != 'INPUT') > 64:
         cls.add('long_text_via_file' if case['via_file'] else 'long_text')
+    if after_refusal:
+        cls.add('after_refused_parse')
     nt = any(k.startswith('kw_') for k in cls) or case['route']['kind'] == 'rename'
     return {'nt': nt and gen.nontrivial_basic(nl), 'cls': cls, 'sample': {'text': text}}
 
@@ -153,6 +177,7 @@ def layout_cases(draw, tier):
 def check_layout(case):
     core = cirbo_core()
     nl, text = case['nl'], case['text']
+    after_refusal = refused_parse_before(case, core)
     entry = case.get('entry', 'string')
     parser_cls = None
     if entry.startswith('parser'):
@@ -217,6 +242,8 @@ def check_layout(case):
         cls.add('alias_vdd')
     if '#' in text:
         cls.add('comment')
+    if after_refusal:
+        cls.add('after_refused_parse')
     nt = bool({'use_before_definition', 'alias_buff', 'alias_vdd'} & cls) or any(k.startswith('kw_') for k in cls)
     return {'nt': nt, 'cls': cls, 'sample': {'text': text}}
 
@@ -235,7 +262,7 @@ SPEC = {
              Sub('layout', layout_cases, check_layout, {'quick': 2500, 'thorough': 200000})],
     'required_classes': {'roundtrip': ['kw_input_on_gate', 'kw_output_on_gate', 'kw_input_on_input', 'kw_on_output',
                                        'route:rename', 'via_file', 'via_file_same_path', 'nary>=3', 'constant',
-                                       'long_text', 'long_text_via_file'],
+                                       'long_text', 'long_text_via_file', 'after_refused_parse'],
                          'layout': ['use_before_definition', 'alias_buff', 'alias_vdd', 'comment', 'kw_input_on_gate',
                                     'entry:string', 'entry:file', 'entry:parser_lines', 'entry:parser_stripped']},
 }
